@@ -46,6 +46,9 @@ def run_case(case):
                     "split": rng.choice(["whole", "random", "random", "bytes1"]) if size <= 300 else rng.choice(["whole", "random"]),
                     "dest": rng.choice(["bytesio", "path"]), "cb": rng.choice([None, "ok", "raise", "raisebase"])}
             num = int(case["seed"].split(":")[-1].strip("abcdefghijklmnopqrstuvwxyz") or 0)
+            if num % 5 == 2 and step["dest"] == "bytesio":
+                step["dest_pos"] = True       # the destination stream is not empty / not at position 0
+                stats["pulls_behind_existing_content"] = 1
             if num % 6 == 4:
                 step["fill"] = "words"        # file content that looks like FileSync records (FAIL, DONE, DATA, ... with small length fields)
                 stats["files_that_look_like_sync_traffic"] = 1
